@@ -41,6 +41,12 @@ func reach(fn *ssa.Function, from ssa.Instruction, target, avoid instrPred, cut 
 // `a && b` lowering and to helpers that return a verdict or an error (after inlining, the verdict is
 // a φ of constants in the continuation block).
 func reach0(fn *ssa.Function, from ssa.Instruction, target, avoid instrPred, cut edgePred, sensitive bool) ssa.Instruction {
+	return reach1(fn, from, nil, target, avoid, cut, sensitive)
+}
+
+// reach1: as reach0; with enteredBy != nil the walk starts in from's block as entered over the edge
+// enteredBy→block, so that the first branch, too, is decided by the φ-inputs of that edge.
+func reach1(fn *ssa.Function, from ssa.Instruction, enteredBy *ssa.BasicBlock, target, avoid instrPred, cut edgePred, sensitive bool) ssa.Instruction {
 	if len(fn.Blocks) == 0 {
 		return nil
 	}
@@ -56,7 +62,7 @@ func reach0(fn *ssa.Function, from ssa.Instruction, target, avoid instrPred, cut
 		visited[key{nil, fn.Blocks[0]}] = true
 	} else {
 		b := from.Block()
-		work = append(work, start{nil, b, idxIn(b, from) + 1})
+		work = append(work, start{enteredBy, b, idxIn(b, from) + 1})
 	}
 	for len(work) > 0 {
 		s := work[len(work)-1]
